@@ -465,7 +465,7 @@ def families(rng, quick):
     add("mix_flt_str", [Asg("u", F(0.5)), If(Cmp(">", N("a"), I(2)), [Asg("u", S("half"))]), Ret(N("u"))])
     # F3 -- C integers reaching arithmetic through a node that resets the might_overflow flag
     srcs = {"lit": lambda: [Asg("x", I(BIG31))], "len": lambda: [Asg("x", Bin("|", Un("len", N("s")), I(BIG31)))],
-            "loop": lambda: [Asg("x", I(0)), ForR("i", [I(0), I(BIG31), I(2 ** 30)], [Asg("x", N("i"))]), Asg("x", Bin("|", N("x"), I(BIG31)))]}
+            "loop": lambda: [Asg("x", I(0)), ForR("i", [I(0), I(2 ** 30 - 1), I(2 ** 29)], [Asg("x", N("i"))]), Asg("x", Bin("|", N("x"), I(BIG31)))]}
     shields = ["cond", "or", "and", "max", "min", "none"]
     ops = ["mul3", "add", "shl", "shl_count", "pow3", "pow_var", "neg_chain", "truediv", "sub", "floordiv", "and_mul"]
     for sk in shields:
